@@ -130,9 +130,32 @@ def run(ctx):
         exp = c07.norm_steps(' ; '.join(h.exp))
         if c07.norm_steps(ra) != exp:
             ctx.violation('defragmenter result slices differ from accumulate-then-parse: "%s" vs "%s"' % (ra[:160], exp[:160]), {'lines': [ln], 'expect': exp}, key='rp:span')
+    # arbitrary op sequences (records whose header length differs from their data, nocopy calls, resets) and the corpus
+    # histories: a record that parses while the parser is idle is answered from the caller's record - no slice of such a
+    # result may point into the parser's buffer (fast path of C07, zero-copy clause here); spans as the model predicts
+    rl = ['rp ' + ' '.join(c07.random_history(rng)) for _ in range(4000 if ctx.thorough else 800)] + common.cg_lines(ctx, ('rp ',))
+    impl, model = ctx.run_both(rl)
+    for ln, a, b in zip(rl, impl, model):
+        ra, side = core.split_side(a)
+        prev = '0'
+        for k, st in enumerate(ra.split(' ; ')):
+            parts = st.split(' | ')
+            if len(parts) != 3:
+                continue
+            ctx.count('op_sequences', 'copied' if 'B@' in parts[0] else 'nocopy')
+            if prev == '0' and parts[0].startswith('ok ') and 'B@' in parts[0]:
+                ctx.violation('step %d of a history: the parser was idle and the record parsed, yet the result points into the parser\'s buffer (copied): %s' % (k, parts[0][:160]),
+                              {'lines': [ln]}, key='rp:idlecopy')
+                break
+            prev = parts[1]
+        if 'X:' in ra or side.get('remptr') == 'bad':
+            ctx.violation('defragmenter result references memory outside the record and the buffer: %s' % ra[:200], {'lines': [ln]}, key='rp:X')
+        elif [c07.proj_step(x) for x in ra.split(' ; ')] != [c07.proj_step(x) for x in b.split(' ; ')]:
+            ctx.cov['model_vs_impl_disagreements'] += 1
+            ctx.violation('correspondence (spans of a history) broken on %s: implementation "%s", model "%s"' % (ln[:100], ra[:200], b[:200]), {'lines': [ln], 'impl': ra, 'model': b}, found_input=False, key='corr:rp')
     common.lean_failure_violation(ctx, ok)
     return ctx.finish(LEVEL,
-        rule='every self-delimiting op on well-formed (independent encoder) and length-corrupted inputs, each re-run with a suffix (random bytes / a copy of the structure itself / a record header): value unchanged and remainder extended on success, outcome class unchanged on non-Incomplete failure, every span of the value inside the consumed prefix, no slice outside the input (X:), remainder pointer = input + consumed; single extensions of every known type with arbitrary content of every small declared length through the three dispatchers and the 16 single-purpose parsers (outcome class and value independent of what follows); spans equal to those of the model run on position-tagged bytes; defragmenter histories: spans in the record (@) or the buffer (B@) exactly as accumulate-then-parse predicts; distinct = (op, outcome shape)',
+        rule='every self-delimiting op on well-formed (independent encoder) and length-corrupted inputs, each re-run with a suffix (random bytes / a copy of the structure itself / a record header): value unchanged and remainder extended on success, outcome class unchanged on non-Incomplete failure, every span of the value inside the consumed prefix, no slice outside the input (X:), remainder pointer = input + consumed; single extensions of every known type with arbitrary content of every small declared length through the three dispatchers and the 16 single-purpose parsers (outcome class and value independent of what follows); spans equal to those of the model run on position-tagged bytes; defragmenter histories: spans in the record (@) or the buffer (B@) exactly as accumulate-then-parse predicts; arbitrary op sequences: an idle parser answers a parsable record from the record itself, spans as the model; distinct = (op, outcome shape)',
         checker_cmd='cd /verif/lean && lake build TlsModel.Props.C06',
         assumptions=['alias is a theorem for the slice-producing primitives and raw records; for composite values it is checked span by span against the model on tagged bytes'])
 
